@@ -187,6 +187,28 @@ class CheckContext:
         r.verdict, r.why = "unknown", "no certificate found and no counter-model on the sampled points"
         return r
 
+    def pattern(self, ident, ok, clause="", fallback=None, detail=None, fn=None):
+        """A syntactic obligation (tag F) that recognises a specific shape of the source.  If the shape is present the obligation is
+        discharged.  If it is NOT present that is not evidence of a defect (the code may have been refactored): the clause is then
+        decided by `fallback()` — a run-time contract on the real code returning None or a failure dict — and is reported as a
+        bounded stand-in (never counted as proved) instead of raising an alarm on a harmless edit."""
+        if ok:
+            return self.ground(ident, True, clause=clause, detail=detail, tag="F", fn=fn)
+        self.notes.append(f"{self.prop}/{ident}: source shape not recognised; clause decided by its run-time fall-back")
+        fail = None
+        if fallback is not None:
+            try:
+                fail = fallback()
+            except Exception as e:  # noqa
+                fail = {"input": "fall-back run", "observed": {"exception": repr(e)[:300]}}
+        if fail is None and fallback is None:
+            return self.undecided(ident, "source shape not recognised and no run-time fall-back", clause)
+        fails = []
+        if fail:
+            fails.append({"input": fail.get("input", fail.get("native_inputs")), "observed": fail.get("observed"), "clause": clause, "key": "pattern-fallback"})
+        self.add_bounded(ident + "/fallback", "run-time fall-back of a syntactic obligation whose source shape was not recognised", 1, 1, fails)
+        return None
+
     def undecided(self, ident, why, clause=""):
         r = self._new(f"{self.prop}/{ident}", "P", clause)
         r.verdict = "unknown"
